@@ -14,6 +14,17 @@ def gmul (a b : Nat) : Nat := BF.pmul 8 poly8 a b
 /-- `a^n` in GF(2^8) -/
 def gpow (a n : Nat) : Nat := BF.ppow 8 poly8 a n
 
+/-- `a^254` (the inverse of a non-zero `a`) by a square-and-multiply chain of 13 multiplications -/
+def ginvChain (a : Nat) : Nat :=
+  let s1 := gmul a a
+  let s2 := gmul s1 s1
+  let s3 := gmul s2 s2
+  let s4 := gmul s3 s3
+  let s5 := gmul s4 s4
+  let s6 := gmul s5 s5
+  let s7 := gmul s6 s6
+  gmul s1 (gmul s2 (gmul s3 (gmul s4 (gmul s5 (gmul s6 s7)))))
+
 /-- entry `i` of a table of bytes packed little-endian in a natural number -/
 @[inline] def byteAt (t i : Nat) : Nat := (t >>> (8*i)) &&& 0xFF
 
